@@ -164,6 +164,17 @@ prop(
     explanation="",
 )
 
+prop(
+    "C12",
+    contract_modules=["contracts.c12"],
+    bcc="c12",
+    level="other",
+    claimed=False,
+    trusted=[],
+    assumptions=[],
+    explanation="",
+)
+
 # ---- stubs (filled in as the contracts are written) -------------------------------------------
 _BOUNDED_TEXT = ("Bounded contract check only at this commit: the property's contracts are evaluated at run time on the real code over the "
                  "enumerated input space stated in evidence (coverage.bounded); labelled bounded, nothing is counted as proved. "
